@@ -21,6 +21,10 @@
 //   pool doneccs call=<id> addrs=<v>         a call completes with a client-side deadline error; if that makes the balancer
 //                                            create a replacement connection, a resolver update with list <v> arrives while the
 //                                            factory is at work (otherwise right afterwards)
+//   pool scsdone call=<id> sc=<id>           while the harness stalls gb.mu, the report that completes a refresh (replacement <sc>
+//                                            READY) and then a call's completion with a client-side deadline error queue
+//                                            up on the lock, in that order: the completion has made up its mind about a refresh
+//                                            before the swap and acts on it afterwards
 //   pool done2 a=<id> b=<id>                 two calls complete with a client-side deadline error at the same time while
 //                                            the harness stalls gb.mu (both reach refresh() together)
 //                                            => <events> ; a:<result> ; b:<result> ; <digest>
@@ -652,6 +656,8 @@ func (h *vPool) exec(line string) string {
 		res = h.doDoneSwap(a)
 	case "doneccs":
 		res = h.doDoneCcs(a)
+	case "scsdone":
+		res = h.doScsDone(a)
 	case "rrburst":
 		res = h.doRRBurst(a)
 	case "ctxdone":
@@ -963,6 +969,51 @@ func (h *vPool) doDoneSwap(a map[string]string) string {
 		return first
 	}
 	return r2
+}
+
+// doScsDone: see the header. Both goroutines have waited for the lock for more than a millisecond when it is released,
+// so the mutex hands it over in arrival order.
+func (h *vPool) doScsDone(a map[string]string) string {
+	id, _ := strconv.Atoi(a["call"])
+	scid, _ := strconv.Atoi(a["sc"])
+	c, ok := h.calls[id]
+	sc, ok2 := h.cc.scs[scid]
+	if !ok || !ok2 {
+		return "bad-op"
+	}
+	delete(h.calls, id)
+	if c.reply != nil {
+		c.reply.Key, c.reply.Keys = "", nil
+	}
+	res := make(chan string, 2)
+	h.gb.mu.Lock()
+	go func() {
+		res <- guarded(func() string {
+			h.b.UpdateSubConnState(sc, balancer.SubConnState{ConnectivityState: connectivity.Ready})
+			return "ok"
+		})
+	}()
+	time.Sleep(3 * time.Millisecond)
+	go func() {
+		res <- guarded(func() string {
+			c.done(balancer.DoneInfo{Err: status.Error(codes.DeadlineExceeded, context.DeadlineExceeded.Error()), BytesSent: true})
+			return "ok"
+		})
+	}()
+	time.Sleep(4 * time.Millisecond)
+	h.gb.mu.Unlock()
+	out := "ok"
+	for i := 0; i < 2; i++ {
+		select {
+		case r := <-res:
+			if r != "ok" {
+				out = r
+			}
+		case <-time.After(4 * time.Second):
+			return "HANG"
+		}
+	}
+	return out
 }
 
 // doDoneCcs: see the header. The resolver update is started from inside the connection factory and given time to
@@ -1358,8 +1409,19 @@ func (g *vGen) scenarioRefreshRace() {
 				return fmt.Sprintf("pool done call=%d err=declient reply=/", ids[jj])
 			})
 		}
-		// the replacement(s) come up
+		// the replacement(s) come up; sometimes while one more qualifying call is completing
+		racy := r.Intn(2) == 0
+		var late int
+		add(func() string {
+			if !racy || cur() < 0 || len(h.gb.refreshingScRefs) == 0 {
+				return ""
+			}
+			g.nextCall++
+			late = g.nextCall
+			return fmt.Sprintf("pool pick call=%d picker=%d m=plain ctx=gcp dl=%d req=/", late, cur(), now())
+		})
 		for k := 0; k < 2; k++ {
+			kk := k
 			add(func() string {
 				ids := []int{}
 				for sc := range h.gb.refreshingScRefs {
@@ -1369,9 +1431,18 @@ func (g *vGen) scenarioRefreshRace() {
 					return ""
 				}
 				sort.Ints(ids)
+				if _, ok := h.calls[late]; ok && kk == 0 && racy {
+					return fmt.Sprintf("pool scsdone call=%d sc=%d", late, ids[0])
+				}
 				return fmt.Sprintf("pool scs sc=%d st=READY", ids[0])
 			})
 		}
+		add(func() string {
+			if _, ok := h.calls[late]; !ok {
+				return ""
+			}
+			return fmt.Sprintf("pool done call=%d err=declient reply=/", late)
+		})
 	}
 }
 
